@@ -3,7 +3,7 @@ regenerated from certexchange/polling; h_poll drives the real predictor, the rea
 real Subscriber.run loop (mock clock, fake peers on a libp2p mocknet) and the driver replays every
 observation through the model and evaluates the property's executable statements on it."""
 
-NONTRIVIAL = r"^(pupd|poll|catchup|round|loop|stuck) "
+NONTRIVIAL = r"^(pupd|poll|catchup|round|loop|stuck|mloop) "
 
 
 def search(ctx):
